@@ -7,7 +7,8 @@
 (* Keys are objects <<class, ptr>>: two key objects of one class compare equal although they are  *)
 (* distinct pointers.  When an entry is replaced by a put with the *same* key object, that object *)
 (* stays in the table and is not destroyed (it is not displaced); with a different object of the  *)
-(* class the old key object is destroyed.  Values are fresh objects (natural numbers) per put.    *)
+(* class the old key object is destroyed.  Values are objects (natural numbers, 0 = NULL): fresh *)
+(* per put when a value destructor is installed, arbitrary (repeated, NULL) when none is.         *)
 (* Destructors are optional (dk, dv).  Every action relates pre-state, arguments, the reported    *)
 (* result and the destructor calls observed *during that call* (dks: key objects, dvs: values, as *)
 (* sequences in call order - the order is left open, multiplicity is not) to the post-state.      *)
@@ -48,7 +49,9 @@ LHInit(k, v) == /\ order = <<>> /\ kd = [i \in 1..(NC * NP) |-> 0] /\ nvd = 0 /\
 
 Put(c, p, v, ok, dks, dvs) ==
     /\ ok                                                       \* allocation cannot fail
-    /\ v \notin vdead /\ \A i \in 1..Len(order) : order[i].v # v   \* environment: a fresh value object
+    \* environment: with a value destructor installed, a fresh non-NULL value object per put; without one any pointer
+    \* may be stored, including NULL (v = 0) and the very object that is already there
+    /\ dv => (v # 0 /\ v \notin vdead /\ \A i \in 1..Len(order) : order[i].v # v)
     /\ LET i == IdxOf(c)
            new == [c |-> c, p |-> p, v |-> v]
        IN IF i = 0
